@@ -96,3 +96,69 @@ fn invalidate_of_a_pending_insert_queues_its_removal() {
     std::mem::forget(first); std::mem::forget(second); std::mem::forget(pending);
     std::mem::forget(cache);
 }
+
+// ================================================================================================
+// C15 (sync, public wrappers): contains_key and iteration are not maintenance points. With write ops
+// queued and the housekeeper due, the public Cache::contains_key / Cache::iter must neither run nor
+// trigger maintenance (which would let TinyLFU judge a pending insert before queued reads are
+// applied) nor record anything. Housekeeper::try_sync is stubbed by a counting twin.
+// ================================================================================================
+static mut TRY_SYNC_CALLS: u32 = 0;
+fn try_sync_counting<T: InnerSync>(_hk: &Housekeeper, _cache: &T) -> bool {
+    unsafe { TRY_SYNC_CALLS += 1; }
+    false
+}
+#[kani::proof]
+#[kani::unwind(6)]
+#[kani::stub(std::time::Instant::now, vs::now_stub)]
+#[kani::stub(Housekeeper::try_sync, try_sync_counting)]
+fn contains_key_and_iter_are_not_maintenance_points() {
+    let st = vs::mk_state(&vs::mk_cfg(1, Some(1), false, false, false, 1));
+    let pending = vs::add_pending(&st, 1);            // insert(1) happened, its Upsert is queued
+    let mut base = vs::base_of(st);
+    // a housekeeper that is due (sync_after >= now: the inline regime of should_apply)
+    base.housekeeper = Some(Arc::new(vh::mk_housekeeper(false, Instant::new(instant_at(1_000_000, 0)))));
+    let cache: Ca = Cache { base };
+    let c0 = cache.contains_key(&0u8);
+    let c1 = cache.contains_key(&1u8);
+    let c2 = cache.contains_key(&2u8);
+    assert!(c0 && c1 && !c2, "C01,C03: contains_key sees residents and pending inserts, not absent keys");
+    let mut it = cache.iter();
+    let mut seen = 0u32;
+    let mut i = 0;
+    while i < 4 { if it.next().is_some() { seen += 1; } i += 1; }
+    drop(it);
+    assert!(seen == 2, "C16: iteration yields every live entry exactly once");
+    assert!(unsafe { TRY_SYNC_CALLS } == 0, "C15: contains_key / iteration must not run or trigger maintenance (they would change which reads TinyLFU has seen when a pending insert is judged)");
+    assert!(cache.base.write_op_ch.len() == 1 && cache.base.inner.verif_read_len() == 0, "C15,C14: contains_key / iteration must not record or apply anything");
+    // get, by contrast, is a maintenance point: exactly one attempt
+    let _ = cache.get(&0u8);
+    assert!(unsafe { TRY_SYNC_CALLS } == 1, "C09: a due housekeeper must be tried by get");
+    kani::cover!(true, "end reached");
+    std::mem::forget(pending);
+    std::mem::forget(cache);
+}
+
+// ================================================================================================
+// C17 (sync): initial_capacity has no observable effect: apart from the map's allocation hint the
+// cache is built in the same state (in particular the popularity sketch is not enabled early, which
+// would let reads made while the cache is still nearly empty decide later admissions).
+// ================================================================================================
+#[kani::proof]
+#[kani::unwind(6)]
+#[kani::stub(std::time::Instant::now, vs::now_stub)]
+fn sync_initial_capacity_is_inert() {
+    let n: u64 = kani::any();
+    let init: usize = kani::any();
+    kani::assume(init < (1usize << 40));
+    let a: Ca = CacheBuilder::<u8, Val, Cache<u8, Val>>::default().max_capacity(n).build_with_hasher(BH::default());
+    let b: Ca = CacheBuilder::<u8, Val, Cache<u8, Val>>::default().max_capacity(n).initial_capacity(init).build_with_hasher(BH::default());
+    let u: Ca = CacheBuilder::<u8, Val, Cache<u8, Val>>::default().initial_capacity(init).build_with_hasher(BH::default());
+    assert!(a.base.inner.verif_sketch_state() == (false, true), "C13,C17: a fresh cache starts with the popularity sketch disabled and unallocated");
+    assert!(b.base.inner.verif_sketch_state() == a.base.inner.verif_sketch_state(), "C17: initial_capacity changes the popularity-sketch state of a fresh cache (observable through later admissions)");
+    assert!(u.base.inner.verif_sketch_state() == (false, true), "C17: initial_capacity changes the popularity-sketch state of an unbounded cache");
+    assert!(b.policy().max_capacity() == Some(n) && b.entry_count() == 0 && b.weighted_size() == 0, "C17: initial_capacity leaks into policy or counters");
+    kani::cover!(n == 0, "capacity zero");
+    kani::cover!(true, "end reached");
+    std::mem::forget(a); std::mem::forget(b); std::mem::forget(u);
+}
